@@ -36,7 +36,7 @@ DATA = {
     'd': {'a': 1, 'b': 2}, 'de': {}, 'dn': {'k': {'j': [1]}}, 'sl': slice(0, 2), 'mix': [None, True, 'x', 1.5, Decimal('1'), (), {}],
 }
 ALIASED = ['al']
-ARG_EXPR = list(DATA) + ['al', '(v => v)', '((a, b) => a)', '(v => [v, v])', '(() => 1)' if False else '(v => str)', 'str', 'len', 'dict', 'list', 'max', 'map', 'pretty',
+ARG_EXPR = list(DATA) + ['af', 'ag', 'ax', 'al', '(v => v)', '((a, b) => a)', '(v => [v, v])', '(() => 1)' if False else '(v => str)', 'str', 'len', 'dict', 'list', 'max', 'map', 'pretty',
                          '__getitem__', 'sorted', 'rand', '"__class__"', '"{0.__class__.__mro__}"', '0', '1', '-1', '2.5', '[]', '{}', '[dict]', '{"k": len}',
                          'l[0:2]', 'None', 'True', '%user%', '%user.name%', '%user.name.upper%', '%user.__class__%', '%user.tags.0%', '%v.upper%', '%v.__class__.__mro__%',
                          '%s.format%', '%l.0%', '%d.a%', '%l.__len__%', '%fmt.format%']
@@ -85,12 +85,32 @@ def cases(ctx):
     # (1) builtin x arity x pool
     per = ctx.scale(60, 600)
     n = 0
+    for src in ['af', '[af]', 'g = af\ng', '{"cb": af}', 't and af', 'af(1)', 'ag', 'ax', '[ax, af, ag]', 'map([1], af)', 'str(af)', 'x = [af, ag]\nx[0]', 'af | str', 'sorted([2, 1], af)', 'ag()']:
+        if n % ctx.nshards == ctx.shard:
+            yield ('astn', src)
+        n += 1
     for name in ctx.fn_names:
         for k in range(0, 5):
             for j in range(per if k else 1):
                 if n % ctx.nshards == ctx.shard:
                     yield ('call', name, k, rnd.getrandbits(40))
                 n += 1
+    # (1c) parameter names of the implementations (introspection), spelled the way a keyword argument would be: on the shipped grammar these are syntax
+    #      errors; a tree that accepts them must still only hand out plain data
+    import inspect
+    for name in ctx.fn_names:
+        try:
+            params = [p.name for p in inspect.signature(ctx.table[name]).parameters.values()]
+        except (TypeError, ValueError):
+            params = []
+        for p_ in params + ['raw', 'key', 'default', 'flags', 'reverse', 'obj', 'self']:
+            if n % ctx.nshards == ctx.shard:
+                for a in (['s, rx', 'l', 'd, "a"', 's', 'ls, ", "'] if not ctx.quick else ['s, rx', rnd.choice(['l', 'd, "a"', 's', 'ls, ", "'])]):
+                    for v in ('True', '1', 'None', 'str'):
+                        yield ('astn', '%s(%s, %s=%s)' % (name, a, p_, v))
+                    yield ('astn', '(%s).%s(%s=True)' % (a.split(',')[0], name, p_))
+                    yield ('astn', '%s | %s(rx, %s=True)' % (a.split(',')[0], name, p_))
+            n += 1
     # (1b) every ordered pair of table entries called one after the other with the SAME arguments (state shared between builtins: caches, memos)
     SAME = ['(s, rx)', '("abcabc", "b(c)")', '("aXbX", "X")', '(s, "b")', '(l)', '(d)', '(ls, ", ")', '(nest)', '("a,b", ",")', '(lt)']
     names_ = ctx.fn_names
@@ -131,7 +151,7 @@ def gram_source(ctx, seed):
     types = gram.gen('code', r, r.randint(2, 6))[:70]
     for _ in range(r.choice([0, 0, 1, 2])):
         types = gram.mutate(types, r, gram.ALPHA)
-    pools = {'NAME': ctx.fn_names + list(DATA) * 2 + ['x', 'y', '%user.name%', '%v.upper%', '%user.__class__%', '%l.0%', '%x.real%', '%s.__doc__%'], 'STRING': ['"__class__"', '"{0.__class__}"', '"a"', '"k"', "'%s'"],
+    pools = {'NAME': ctx.fn_names + list(DATA) * 2 + ['x', 'y', 'af', 'ag', 'ax', '%user.name%', '%v.upper%', '%user.__class__%', '%l.0%', '%x.real%', '%s.__doc__%'], 'STRING': ['"__class__"', '"{0.__class__}"', '"a"', '"k"', "'%s'"],
              'NUMBER': ['0', '1', '2', '10']}
     return gram.render(types, r, pools=pools)[1]
 
@@ -151,6 +171,8 @@ def run_case(case, ctx):
             pass
         src = '%s%s' % (case[2], case[3])
         ctx.count('same_argument_pairs')
+    elif kind == 'astn':
+        src = case[1]
     else:
         src = gram_source(ctx, case[1])
     names = host_names()
@@ -162,9 +184,17 @@ def run_case(case, ctx):
         random.seed(1)
     M6 = ctx.M6
     result, exc = None, None
+    ast_names = None
+    if kind in ('gram', 'astn') or (kind == 'call' and case[3] % 5 == 0):
+        # the rarely used ast_names argument: compiled lambdas and parsed trees supplied by the host; a program may mention them bare, store them, pass them on
+        from smartquery.ast_ops import LambdaOp, NameOp
+        try:
+            ast_names = {'af': LambdaOp(args=[NameOp('p0')], expr=ctx.P.parse('[p0, len]')), 'ag': LambdaOp(args=[], expr=ctx.P.parse('1')), 'ax': ctx.P.parse('[1, "a"]')}
+        except Exception:
+            ast_names = None
     M6.begin()
     try:
-        result = ctx.P.eval(src, names, None, 3000)
+        result = ctx.P.eval(src, names, ast_names, 3000)
     except Exception as e:
         exc = e
     forbidden = M6.end()
